@@ -52,11 +52,14 @@ static void *t_refcount(void *arg)
 	return NULL;
 }
 
+static int spin_arrivals;
 static void *t_release(void *arg)
 {
 	int me = (int)(intptr_t)arg, i;
 	for (i = 0; i < ITERS; i++) {
 		pthread_barrier_wait(&bar);             /* main has prepared shared[0] with NT references */
+		/* tighten the rendezvous: the kernel wakes barrier waiters microseconds apart, the window of a lost update is nanoseconds */
+		{ int target = (i + 1) * NT; __atomic_add_fetch(&spin_arrivals, 1, __ATOMIC_ACQ_REL); long spins = 0; while (__atomic_load_n(&spin_arrivals, __ATOMIC_ACQUIRE) < target) { if (++spins > 4000) sched_yield(); } }
 		if (json_object_put(shared[0])) { __atomic_add_fetch(&freed_reports, 1, __ATOMIC_RELAXED); __atomic_add_fetch(&winner[me], 1, __ATOMIC_RELAXED); }
 		pthread_barrier_wait(&bar);             /* main checks the round */
 	}
